@@ -1115,5 +1115,6 @@ def warping_path_args_to_c(s1, s2, **kwargs):
             return 0
         return value
     settings_kwargs = {key: get(key) for key in
-                       ['window', 'max_dist', 'max_step', 'max_length_diff', 'penalty', 'psi']}
+                       ['window', 'max_dist', 'max_step', 'max_length_diff', 'penalty', 'psi',
+                        'use_pruning', 'inner_dist']}
     return s1, s2, settings_kwargs
